@@ -13,6 +13,16 @@ CLAIMED = {
   "Trusted: Lean kernel, axioms propext/Classical.choice/Quot.sound only; correspondence check ties BV.bumpBid to lexid.next_id and v2version._incr_numeric (third-party lexid is modelled, not verified).",
   "Lean 4 proof (induction on digit lists) + exhaustive model/implementation correspondence",
   "DESIGN.md section 7, C17"),
+ "C11": (
+  "Lean 4 theorems C11_decision/no_crash/pattern_file_always_blocks/untracked_unrelated_never_blocks/clean about the executable model of VCSAPI.status + assert_not_dirty, for EVERY porcelain XY status pair, every path git prints verbatim, every file list and both --allow-dirty settings; tied to the code by op `dirty` on status text produced by a real git for every file state and on synthetic porcelain text, plus an end-to-end oracle with real git (exit code, bytes, HEAD, commit contents). Partial: real git's behaviour is exercised, not modelled; C-quoted paths and renames are known finding F-C11-quoted.",
+  "Trusted: Lean kernel + standard axioms; correspondence check; git itself (exercised). The abort-before-rewrite ordering is C10's theorem.",
+  "Lean 4 proof (structural induction over status lines) + correspondence on real git output",
+  "DESIGN.md section 7, C11"),
+ "C12": (
+  "Lean 4 theorems C12_*: for every value-carrying git/hg command of the GENERATED template table and ALL strings the argv is the documented token list with each value as exactly one element (C12_git_commit_argv … C12_hg_push_tag_argv), the general C12_single_argument over the table shape (C12_table_shape checked on the regenerated table), C12_message_render for str.format with the documented placeholders, and negative witnesses for the repaired format-then-split defect. Tied to the code by ops shlex/fmt/argv/submsg and end-to-end update runs with fake git/hg (NUL-separated argv log) and real git objects.",
+  "Trusted: Lean kernel + standard axioms; translator for VCS_SUBCOMMANDS_BY_NAME; str.format and shlex.split are modelled (tied by correspondence), hg itself is absent (fake executable).",
+  "Lean 4 proof over a regenerated table (decide +kernel on the table, induction for the general lemmas) + correspondence",
+  "DESIGN.md section 7, C12"),
 }
 
 PENDING_REASON = "not yet covered: model/theorems for this property are still being built (see DESIGN.md section 10 for the order of work); no check is claimed until its theorems are proved and tied to the code"
